@@ -22,8 +22,10 @@ theorem C03_injected_first_read (e : Env) (n : String) (o : Obj) (hn : splitDots
 theorem C03_injected_first_write (e e' : Env) (n : String) (o : Obj) (v : Val) (hn : splitDots n = [n])
     (h : e.lookupBase n = some o) (hs : setValue e n v = .ok e') : e'.vars = e.vars := by
   simp only [setValue, hn, h] at hs
-  split at hs <;> simp at hs
-  subst hs; rfl
+  repeat' split at hs
+  all_goals first
+    | (simp only [Res.ok.injEq] at hs; subst hs; rfl)
+    | (simp at hs)
 
 /-- a plain local assignment never touches injected data -/
 theorem C03_local_write_frame (e : Env) (n : String) (v : Val) : (e.setVar n v).base = e.base := rfl
